@@ -131,4 +131,97 @@ theorem expLoop_steps (E : Env) (r : FBigM) :
         have := ih _ _ _ _ _ h
         omega
 
+/-! ### flags, precisions, `sub_ulp` -/
+
+theorem markInexact_ne_none (f : Option Rounding) : markInexact f ≠ none := by
+  cases f <;> simp [markInexact]
+
+theorem fSubUlp_le (E : Env) (h : DlbSound E.B E.est.dlb) (x : FBigM) :
+    (fSubUlp E x).signif = 1 ∧
+      (fSubUlp E x).exp ≤ x.repr.exp + (digitsI E.B x.repr.signif : Int) - (x.prec : Int) - 1 := by
+  refine ⟨rfl, ?_⟩
+  have := h x.repr.signif
+  simp only [fSubUlp]
+  omega
+
+/-- `exp_internal` behind its guards never reports `Exact` (`mark_inexact`) -/
+theorem expBody_flag (fuel : Nat) (E : Env) (p : Nat) (x : FRepr) (minusOne : Bool)
+    (v : FBigM) (fl : Option Rounding) (tr : Trace)
+    (h : expBody fuel E p x minusOne = .ok ((v, fl), tr)) : fl ≠ none := by
+  unfold expBody at h
+  simp only [bind, Except.bind, pure, Except.pure] at h
+  repeat' split at h
+  all_goals (try (simp at h))
+  all_goals (try (obtain ⟨⟨_, rfl⟩, _⟩ := h; exact markInexact_ne_none _))
+
+/-- `ln_internal` behind its guards never reports `Exact` -/
+theorem lnBody_flag (fuel : Nat) (E : Env) (p : Nat) (x : FRepr) (onePlus : Bool)
+    (v : FBigM) (fl : Option Rounding) (tr : Trace)
+    (h : lnBody fuel E p x onePlus = .ok ((v, fl), tr)) : fl ≠ none := by
+  unfold lnBody at h
+  simp only [bind, Except.bind, pure, Except.pure] at h
+  repeat' split at h
+  all_goals (try (simp at h))
+  all_goals (try (obtain ⟨⟨_, rfl⟩, _⟩ := h; exact markInexact_ne_none _))
+
+theorem andThenFlag_ne_none (a b : Option Rounding) (h : a ≠ none) : andThenFlag a b ≠ none := by
+  cases b <;> simp [andThenFlag, h]
+
+/-- `exp_internal` with its guards: `Exact` only from the `x = 0` shortcut -/
+theorem expFull_flag (fuel : Nat) (E : Env) (p : Nat) (x : FRepr) (minusOne : Bool)
+    (v : FBigM) (tr : Trace) (h : expFull fuel E p x minusOne = .ok ((v, none), tr)) : x.isZero = true := by
+  unfold expFull at h
+  split at h
+  · assumption
+  · exact absurd rfl (expBody_flag _ _ _ _ _ _ _ _ h)
+
+/-- `ln_internal` with its guards: `Exact` only from the shortcuts `ln 1`, `ln_1p 0` -/
+theorem lnFull_flag (fuel : Nat) (E : Env) (p : Nat) (x : FRepr) (onePlus : Bool)
+    (v : FBigM) (tr : Trace) (h : lnFull fuel E p x onePlus = .ok ((v, none), tr)) :
+    ((onePlus && x.isZero) || (!onePlus && x.signif == 1 && x.exp == 0)) = true := by
+  unfold lnFull at h
+  split at h
+  · assumption
+  · repeat' split at h
+    all_goals first
+      | exact absurd rfl (lnBody_flag _ _ _ _ _ _ _ _ h)
+      | (simp at h)
+
+
+theorem fWithPrecision_prec (B : Nat) (m : Mode) (c : Coarse) (x : FBigM) (p : Nat) :
+    (fWithPrecision B m c x p).1.prec = p := by
+  unfold fWithPrecision; split <;> rfl
+
+theorem fShl_prec (x : FBigM) (k : Int) : (fShl x k).prec = x.prec := by
+  unfold fShl; split <;> rfl
+
+/-- the result of the mirrored `exp_internal` carries the precision of the context -/
+theorem expBody_prec (fuel : Nat) (E : Env) (p : Nat) (x : FRepr) (minusOne : Bool)
+    (v : FBigM) (fl : Option Rounding) (tr : Trace)
+    (h : expBody fuel E p x minusOne = .ok ((v, fl), tr)) : v.prec = p := by
+  unfold expBody at h
+  simp only [bind, Except.bind, pure, Except.pure] at h
+  repeat' split at h
+  all_goals (try (simp at h))
+  all_goals (try (obtain ⟨⟨rfl, _⟩, _⟩ := h; first | exact fWithPrecision_prec _ _ _ _ _ | exact fShl_prec _ _))
+
+theorem lnBody_prec (fuel : Nat) (E : Env) (p : Nat) (x : FRepr) (onePlus : Bool)
+    (v : FBigM) (fl : Option Rounding) (tr : Trace)
+    (h : lnBody fuel E p x onePlus = .ok ((v, fl), tr)) : v.prec = p := by
+  unfold lnBody at h
+  simp only [bind, Except.bind, pure, Except.pure] at h
+  repeat' split at h
+  all_goals (try (simp at h))
+  all_goals (try (obtain ⟨⟨rfl, _⟩, _⟩ := h; exact fWithPrecision_prec _ _ _ _ _))
+
+theorem powfBody_prec (fuel : Nat) (E : Env) (p : Nat) (base exp : FRepr)
+    (v : FBigM) (fl : Option Rounding) (tr : Trace)
+    (h : powfBody fuel E p base exp = .ok ((v, fl), tr)) : v.prec = p := by
+  unfold powfBody at h
+  simp only [bind, Except.bind, pure, Except.pure] at h
+  repeat' split at h
+  all_goals (try (simp at h))
+  all_goals (try (obtain ⟨⟨rfl, _⟩, _⟩ := h; exact fWithPrecision_prec _ _ _ _ _))
+
+
 end Dashu.Proofs.Trans.Series
